@@ -129,12 +129,13 @@ pub fn case(idx: u64, seed: u64, p: &Params, o: &mut CaseOut) {
     let max = p.usize("max_order", 40);
     let fam = r.below(gen::FAMILIES.len());
     let n = match r.below(10) {
-        0..=6 => gen::small_order(&mut r, max.min(9)),
+        0..=6 => gen::algo_order(&mut r, max.min(9), 130),
         7 => *r.pick(&[8usize, 9, 16, 17, 31, 32, 33]).min(&max),
         _ => r.range(1, max),
     };
+    let fam = if n > max { gen::sparse_family(&mut r) } else { fam };
     let mut m = gen::family(&mut r, fam, n);
-    let ty = r.below(7);
+    let ty = if n > max { r.below(6) } else { r.below(7) };
     let big = n > 20;
     let name;
     let nt = match ty {
